@@ -1055,6 +1055,11 @@ def load(root="/repo", config="default", extra_flags=()):
     if fb.odr_conflicts:
         raise Broken("declarations differ between units (ODR hazard): %r" % fb.odr_conflicts[:5])
     inline_unnamed_helpers(fb)
+    from . import inline as _inline
+    try:
+        _inline.inline_private_helpers(fb)
+    except Broken:
+        raise
     return fb
 
 
